@@ -37,7 +37,7 @@ CFG = {
     "lean_modules": ["SuccinctlyVerif.Props.C14"],
     "required_theorems": ["SV.Props.C14.render_load_flow", "SV.Props.C14.render_load_breaks", "SV.Props.C14.render_load_flow_breaks",
                           "SV.Props.C14.render_load_block", "SV.Props.C14.render_load_block_breaks"],
-    "lean_files": ["SuccinctlyVerif/Props/C14.lean", "SuccinctlyVerif/Proof/YamlRoundTrip.lean", "SuccinctlyVerif/Proof/YamlBlock.lean", "SuccinctlyVerif/Proof/YamlFamilies.lean",
+    "lean_files": ["SuccinctlyVerif/Props/C14.lean", "SuccinctlyVerif/Proof/YamlRoundTrip.lean", "SuccinctlyVerif/Proof/YamlRefBlock.lean", "SuccinctlyVerif/Proof/YamlFamilies.lean",
                    "SuccinctlyVerif/Spec/YamlRef.lean", "SuccinctlyVerif/Spec/YamlTree.lean",
                    "SuccinctlyVerif/Spec/YamlLoad.lean"],
     "generated": [],
